@@ -672,6 +672,7 @@ func c05Facts(repo string, w *strings.Builder) error {
 		return err
 	}
 	c05bWrite(w, pkgs)
+	c05cWrite(w, pkgs)
 	w.WriteString("\nend Dawgs.Generated.C05\n")
 	return nil
 }
